@@ -116,13 +116,25 @@ def ast_seed_scan():
     return n, bad
 
 
+FOPS = ["obs_chi2", "obs_gauss", "obs_gauss_indep", "obs_tables", "noise_chi2", "noise_gauss", "signal_rfi", "signal_snr", "zero"]
+FRES = [(2.0, 1.0), (2.7939677238464355, 18.253611008), (1.3969838619232178, 1.4316557653333333), (0.5, 5.0), (4.0, 0.5)]
+
+
+def gen_fhist(rng):
+    def fr():
+        df, dt = rng.choice(FRES)
+        ops = [rng.choice(FOPS[:6])] + [rng.choice(FOPS) for _ in range(rng.randint(0, 3))]
+        return dict(F=rng.choice([8, 16, 33]), T=rng.choice([2, 4, 7]), df=df, dt=dt, seed=rng.randint(0, 10 ** 6), ops=ops)
+    return dict(history=[fr() for _ in range(rng.randint(1, 3))], target=fr())
+
+
 def run(ctx):
     rng = ctx.rng
     quick = ctx.tier == "quick"
     ctx.rule = ("pairs of processes: (history ; recording) vs (recording alone) for default-dictionary recordings, array-then-single and "
                 "single-then-array, a caller dictionary reused, one backend recording twice vs a fresh backend (quantiser periods -1/1/2/3), "
                 "an injection onto a recording with caller cards (from_data), plus the same scenario in another process started with a different PYTHONHASHSEED (determinism); frames from five construction routes copied and pickled, mutated on either "
-                "side; seed sameness/difference for frames, antennas, arrays, channelised-noise estimate; AST scan for unseeded randomness; "
+                "side; seeded frame workflows (bundled-table / explicit-table / direct noise, RFI path, SNR-level signal, zero_data) alone vs after 1-3 other frames of other resolutions in the same interpreter; seed sameness/difference for frames, antennas, arrays, channelised-noise estimate; AST scan for unseeded randomness; "
                 "non-trivial = scenario with a history; distinct = distinct scenario")
     ctx.assumptions = ["numpy's generators are deterministic functions of their seed (not a theorem; checked by running twice)",
                        "'different seeds draw different noise' is checked by sampling only"]
@@ -182,6 +194,24 @@ def run(ctx):
         ctx.count(dict(k="seeds", c=c), nontrivial=True)
         for key, msg in r["fails"]:
             ctx.impl_violation(key, msg, dict(mode="seeds", **c))
+    # seeded frame workflows: the target alone vs after a history of other frames in the same interpreter (and built twice there)
+    hc = [gen_fhist(rng) for _ in range(16 if quick else 200)]
+    hp = []
+    for c in hc:
+        hp.append(dict(mode="fhist", cases=[c]))
+        hp.append(dict(mode="fhist", cases=[dict(history=[], target=c["target"])]))
+    ho = C.run_impl_parallel("c12_impl", hp)
+    for i, c in enumerate(hc):
+        h, b = ho[2 * i][0], ho[2 * i + 1][0]
+        small = dict(mode="fhist", **c)
+        ctx.count(dict(k="fhist", c=c), nontrivial=True)
+        for op in c["target"]["ops"]:
+            ctx.tally("frame_workflow_op", op)
+        if h["digest"] != b["digest"]:
+            ctx.impl_violation("frame-history", "a seeded frame (dt=%r, ops %s) differs when other frames (dt %s) were built before it in the same process: noise estimates %r vs alone %r"
+                               % (c["target"]["dt"], c["target"]["ops"], [f["dt"] for f in c["history"]], h["stats"], b["stats"]), small)
+        elif h["digest"] != h["again"] or b["digest"] != b["again"]:
+            ctx.impl_violation("same-seed-differs", "the same seeded frame workflow built twice in one process gives different frames", small)
     n, bad = ast_seed_scan()
     ctx.extra["rng_call_sites_scanned"] = n
     for b in bad:
@@ -196,6 +226,11 @@ def replay(ctx, payload):
         b = C.run_impl("c12_impl", dict(mode="scenario", cases=[c["baseline"]]))[0]
         bad = h["digest"] != b["digest"]
         print("with history:", h["info"][:1]); print("alone       :", b["info"][:1])
+    elif c.get("mode") == "fhist":
+        h = C.run_impl("c12_impl", dict(mode="fhist", cases=[dict(history=c["history"], target=c["target"])]))[0]
+        b = C.run_impl("c12_impl", dict(mode="fhist", cases=[dict(history=[], target=c["target"])]))[0]
+        bad = h["digest"] != b["digest"] or h["digest"] != h["again"]
+        print("after history:", h["stats"], h["digest"][:16]); print("alone        :", b["stats"], b["digest"][:16])
     elif c.get("mode") == "frames":
         r = C.run_impl("c12_impl", dict(mode="frames", cases=[c]))[0]
         bad = bool(r["fails"]); print(r["fails"])
